@@ -29,7 +29,7 @@ unset CARGO_TARGET_DIR
 # run the checks against the mutant
 results=""
 if [ $applies = yes ]; then
-  if [ "$mode" = all ]; then ids=$(seq -f "C%02g" 1 20); else ids="$id"; fi
+  if [ "$mode" = all ]; then ids=$(seq -f "C%02g" 1 19); [ "$id" = C20 ] && ids="$ids C20"; else ids="$id"; fi
   for c in $ids; do
     o="$(cd /verif && VERIF_REPO="$wt" VERIF_TARGET=/verif/monitor/target-mut ./check "$c" --tier quick --out "$out/evidence-$c.json" --replays "$out/replays-$c" 2>&1)"; rc=$?
     sigs="$(printf '%s\n' "$o" | grep -o 'signature=[^ ]*' | head -n 3 | tr '\n' ' ')"
